@@ -302,6 +302,12 @@ func Beat(w []byte) {
 	beatInput.Store(w)
 }
 
+// LastBeat returns the input of the most recently started execution (nil if none).
+func LastBeat() []byte {
+	w, _ := beatInput.Load().([]byte)
+	return w
+}
+
 // StartWatchdog reports a violation and exits 1 if no execution completes for `limit`: a single
 // tiny execution that runs that long does not terminate for practical purposes. Exploration
 // budgets are not wall-clock oracles; this only fires when one call hangs.
